@@ -1545,6 +1545,8 @@ def OP_CHECK_ADAPTER_SIG(tape: Tape, stack: Stack, cache: dict) -> None:
     m = stack.get()
     R = stack.get()
     sa = stack.get()
+    # reduce sa mod L like OP_DECRYPT_ADAPTER_SIG does (base_noclamp only drops bit 255)
+    sa = nacl.bindings.crypto_core_ed25519_scalar_reduce(sa + bytes(32))
     sa_G = nacl.bindings.crypto_scalarmult_ed25519_base_noclamp(sa) # sa_G = G^sa
     RT = aggregate_points((R, T)) # R + T
     ca = clamp_scalar(H_small(RT, X, m)) # H(R + T || X || m)
